@@ -230,6 +230,7 @@ class State:
         self.value = None
         self.exc = None
         self.pure = None
+        self.qstack = []  # index variables of the enclosing quantified (generator) evaluations
 
     def copy(self):
         s = State(dict(self.env), self.heap, list(self.pc))
@@ -237,6 +238,7 @@ class State:
         s.value = self.value
         s.exc = self.exc
         s.pure = self.pure
+        s.qstack = list(self.qstack)
         s.aux = dict(self.aux)
         s.tags = dict(self.tags)
         return s
@@ -487,6 +489,7 @@ class Engine:
         self.cur = contract
         self.cur_fi = fi
         self.loop_ordinal = 0
+        self.check_decorators(contract, fi)
         start = len(self.obligations)
         h0 = Heap(tag="0")
         self.h0 = h0
@@ -561,6 +564,30 @@ class Engine:
             else:
                 raise OutsideSubset(f"path left {contract.name} with status {f.status}")
         return self.obligations[start:], {"paths": len(finals), "normal_paths": nret}
+
+    MODELLED_DECORATORS = ("property", "staticmethod", "classmethod", "functools.cached_property", "cached_property",
+                           "abc.abstractmethod", "abstractmethod", "wraps(method)", "functools.wraps(method)")
+
+    def check_decorators(self, contract, fi):
+        """A decorator changes what callers run.  The ones with a model: property / cached_property /
+        staticmethod / classmethod / abstractmethod / x.setter (calling conventions), and
+        @_dispatcher_cache for the query contracts (`q$raw` = the body, `q` = the wrapper composed with
+        it).  Anything else means the contract no longer describes the callable: drift, decided by the
+        bounded run.  The set of cached query names must be the one the cache model was written for."""
+        own = contract.name.split("$")[0]
+        target = self.prog.lookup(own) if getattr(contract, "source", None) else fi
+        for d in (target.decorators if target else []):
+            if d in self.MODELLED_DECORATORS or d.endswith(".setter"):
+                continue
+            if d.endswith("_dispatcher_cache") and (contract.name.endswith("$raw") or getattr(contract, "source", "") ==
+                                                    "_dispatcher_cache.wrapper"):
+                continue
+            raise OutsideSubset(f"drift: decorator @{d} on {own} is not covered by its contract")
+        expected = getattr(self, "expected_cache_keys", None)
+        if expected is not None and (fi.cls == "Dispatcher" or fi.qualname.startswith("_dispatcher_cache")):
+            if set(self.cache_keys()) != set(expected):
+                raise OutsideSubset("drift: the methods decorated with @_dispatcher_cache are "
+                                    f"{self.cache_keys()}, the cache model was written for {sorted(expected)}")
 
     def frame_obligations(self, st, h0, h1, frame: Frame, prefix):
         x = fresh("fx")
